@@ -289,6 +289,73 @@ def fixtures():
     return _FX
 
 
+_BIG = {}
+SIZES = (12000, 70000)          # decision-space sizes of the `@large` variants (v even / v odd)
+
+
+def big_pgmat():
+    """5000 taxa x 12 markers (private RandomState, cached)"""
+    if "pg" not in _BIG:
+        from pybrops.popgen.gmat.DensePhasedGenotypeMatrix import DensePhasedGenotypeMatrix
+        fx = fixtures()
+        small = fx["pg"]
+        r = numpy.random.RandomState(77)
+        n = 5000
+        _BIG["pg"] = DensePhasedGenotypeMatrix(
+            mat=r.randint(0, 2, size=(2, n, fx["nvrnt"])).astype("int8"),
+            taxa=numpy.array([f"b{i}" for i in range(n)], dtype=object), taxa_grp=numpy.arange(n, dtype="int64") // 50,
+            vrnt_chrgrp=small.vrnt_chrgrp, vrnt_phypos=small.vrnt_phypos, vrnt_name=small.vrnt_name,
+            vrnt_genpos=small.vrnt_genpos, vrnt_xoprob=small.vrnt_xoprob)
+        _BIG["pg"].group_vrnt()
+    return _BIG["pg"]
+
+
+def big_kmat(n):
+    if ("k", n) not in _BIG:
+        k = numpy.random.RandomState(3).randint(-2, 3, size=(n, n)).astype(float)
+        k = (k + k.T) / 2.0
+        numpy.fill_diagonal(k, 0.0)
+        _BIG[("k", n)] = k
+    return _BIG[("k", n)]
+
+
+def prepare_large():
+    """build every large fixture before anything is observed (RandomState(seed) acquires OS entropy)"""
+    big_pgmat()
+    for n in (100, 160):
+        big_kmat(n)
+    for _m, _c, kind, nobj in GA_CLASSES:
+        for v in (0, 1):
+            big_problem(kind, nobj, _ga_size(kind, v))
+    big_problem("subset1", 1, SIZES[0])
+
+
+def big_problem(kind, nobj, n):
+    """EBV selection problem over n candidates (subset: decision space of n elements, 4 chosen;
+    real/integer/binary: n decision variables)"""
+    key = (kind, nobj, n)
+    if key not in _BIG:
+        import pybrops.breed.prot.sel.prob.EstimatedBreedingValueSelectionProblem as EP
+        ebv = numpy.random.RandomState(5).randint(-50, 50, size=(n, 2)).astype(float)
+        trans = _sum_trans if nobj == 1 else _id_trans
+        if kind == "subset":
+            _BIG[key] = EP.EstimatedBreedingValueSubsetSelectionProblem(
+                ebv=ebv, ndecn=4, decn_space=numpy.arange(n), decn_space_lower=numpy.repeat(0, 4),
+                decn_space_upper=numpy.repeat(n - 1, 4), nobj=nobj, obj_wt=numpy.ones(nobj), obj_trans=trans)
+        elif kind == "subset1":
+            _BIG[key] = EP.EstimatedBreedingValueSubsetSelectionProblem(
+                ebv=ebv, ndecn=1, decn_space=numpy.arange(n), decn_space_lower=numpy.repeat(0, 1),
+                decn_space_upper=numpy.repeat(n - 1, 1), nobj=nobj, obj_wt=numpy.ones(nobj), obj_trans=trans)
+        else:
+            cls = {"real": EP.EstimatedBreedingValueRealSelectionProblem, "integer": EP.EstimatedBreedingValueIntegerSelectionProblem,
+                   "binary": EP.EstimatedBreedingValueBinarySelectionProblem}[kind]
+            lo, hi, dt = {"real": (0.0, 1.0, float), "integer": (0, 2, int), "binary": (0, 1, int)}[kind]
+            _BIG[key] = cls(ebv=ebv, ndecn=n, decn_space=numpy.stack([numpy.repeat(lo, n), numpy.repeat(hi, n)]).astype(dt),
+                            decn_space_lower=numpy.repeat(lo, n).astype(dt), decn_space_upper=numpy.repeat(hi, n).astype(dt),
+                            nobj=nobj, obj_wt=numpy.ones(nobj), obj_trans=trans)
+    return _BIG[key]
+
+
 def _sum_trans(decnvec, latentvec, **kw):
     return latentvec.sum(keepdims=True)
 
@@ -439,6 +506,134 @@ def _select(protname):
     return run
 
 
+# ---- `@large` variants: same entry points at sizes where size-gated code paths would be taken ----------
+def _mate_large(clsname):
+    def run(rng, v):
+        import importlib
+        cls = getattr(importlib.import_module("pybrops.breed.prot.mate." + clsname), clsname)
+        out = cls(rng=rng).mate(fixtures()["pg"], _xconfig(2, v), 1, 1500 + 1000 * (v % 2))    # 9000 / 15000 gametes
+        return [out.mat, out.taxa_grp]
+    return run
+
+
+def _phenotype_large(rng, v):
+    from pybrops.breed.prot.pt.G_E_Phenotyping import G_E_Phenotyping
+    pt = G_E_Phenotyping(fixtures()["gm"], nenv=1, nrep=1 + v % 2, var_env=1.0, var_rep=0.5, var_err=1.0, rng=rng)
+    return pt.phenotype(big_pgmat())
+
+
+def _sus_large(rng, v):
+    import pybrops.core.random.sampling as S
+    n = SIZES[v % 2]
+    p = (numpy.arange(n) % 17 + 1).astype(float)
+    return S.stochastic_universal_sampling(numpy.arange(n), p, 70000, rng)           # > 2**16 draws
+
+
+def _tiled_large(rng, v):
+    import pybrops.core.random.sampling as S
+    n = SIZES[v % 2]
+    return S.tiled_choice(numpy.arange(n), (35001, 2), False, None, rng)             # > 2**16 draws
+
+
+def _axis_shuffle_large(rng, v):
+    import pybrops.core.random.sampling as S
+    a = numpy.arange(2 * SIZES[v % 2]).reshape(-1, 2)
+    S.axis_shuffle(a, 1, rng)
+    return a
+
+
+def _cfg_large(clsname, mk, mate=False):
+    def run(rng, v):
+        import importlib
+        cls = getattr(importlib.import_module("pybrops.breed.prot.sel.cfg." + clsname), clsname)
+        n = SIZES[v % 2]
+        kw = dict(ncross=3, nparent=2, nmating=1, nprogeny=1, pgmat=fixtures()["pg"], xconfig_decn=mk(n), rng=rng)
+        if mate:
+            kw["xconfig_xmap"] = numpy.stack([numpy.arange(n) % 10, (numpy.arange(n) // 10) % 10], axis=1)
+        c = cls(**kw)
+        return [c.xconfig.copy(), c.sample_xconfig(return_xconfig=True)]
+    return run
+
+
+def _ga_size(kind, v):
+    # integer problems: 30 000 variables instead of 70 000 (pymoo's integer operators take 0.5 s per call there)
+    n = SIZES[v % 2]
+    return min(n, 30000) if kind == "integer" else n
+
+
+def _opt_large(modname, clsname, kind, nobj, ga=True):
+    def run(rng, v):
+        import importlib
+        cls = getattr(importlib.import_module("pybrops.opt.algo." + modname), clsname)
+        prob = big_problem(kind, nobj, _ga_size(kind, v) if ga else SIZES[0])
+        kw = {"phc": 0.0} if "SteepestDescentSubsetGenetic" in clsname else {}   # its hill climb is O(n) evaluations per sweep
+        if ga:
+            a = cls(ngen=2, pop_size=4, rng=rng, **kw) if rng is not None else cls(ngen=2, pop_size=4, **kw)
+        else:
+            a = cls(rng=rng)
+        sol = a.minimize(prob)
+        return [sol.soln_decn, sol.soln_obj]
+    return run
+
+
+def _jitter_large(rng, v):
+    from pybrops.popgen.cmat.DenseMolecularCoancestryMatrix import DenseMolecularCoancestryMatrix
+    n = 100 + 60 * (v % 2)
+    c = DenseMolecularCoancestryMatrix(big_kmat(n).copy())
+    ok = c.apply_jitter(eigvaltol=-1.0, minjitter=10.0 * n, maxjitter=30.0 * n, nattempt=20)
+    return [bool(ok), c.mat]
+
+
+def _embv_large(rng, v):
+    from pybrops.model.embvmat.DenseExpectedMaximumBreedingValueMatrix import DenseExpectedMaximumBreedingValueMatrix
+    fx = fixtures()
+    sub = fx["pg"].select_taxa(numpy.arange(2))
+    return DenseExpectedMaximumBreedingValueMatrix.from_gmod(fx["gm"], sub, nprogeny=4500 + 2000 * (v % 2), nrep=1).mat
+
+
+GA_CLASSES = [
+    ("SubsetGeneticAlgorithm", "SubsetGeneticAlgorithm", "subset", 1),
+    ("NSGA2SubsetGeneticAlgorithm", "NSGA2SubsetGeneticAlgorithm", "subset", 2),
+    ("NSGA3SubsetGeneticAlgorithm", "NSGA3SubsetGeneticAlgorithm", "subset", 2),
+    ("RealGeneticAlgorithm", "RealGeneticAlgorithm", "real", 1),
+    ("NSGA2RealGeneticAlgorithm", "NSGA2RealGeneticAlgorithm", "real", 2),
+    ("IntegerGeneticAlgorithm", "IntegerGeneticAlgorithm", "integer", 1),
+    ("NSGA2IntegerGeneticAlgorithm", "NSGA2IntegerGeneticAlgorithm", "integer", 2),
+    ("BinaryGeneticAlgorithm", "BinaryGeneticAlgorithm", "binary", 1),
+    ("NSGA2BinaryGeneticAlgorithm", "NSGA2BinaryGeneticAlgorithm", "binary", 2),
+    ("NSGA2MemeticSubsetGeneticAlgorithm", "NSGA2SteepestDescentSubsetGeneticAlgorithm", "subset", 2),
+    ("NSGA2MemeticSubsetGeneticAlgorithm", "NSGA2StochasticDescentSubsetGeneticAlgorithm", "subset", 2),
+    ("NSGA2MemeticSubsetGeneticAlgorithm", "NSGA2MutatorASubsetGeneticAlgorithm", "subset", 2),
+    ("NSGA2MemeticSubsetGeneticAlgorithm", "NSGA2MutatorBSubsetGeneticAlgorithm", "subset", 2),
+]
+
+
+def large_components():
+    c = {}
+    W = 0.08
+    c["mate.TwoWayCross@large"] = (True, _mate_large("TwoWayCross"), W)
+    c["mate.TwoWayDHCross@large"] = (True, _mate_large("TwoWayDHCross"), W)
+    c["pt.G_E_Phenotyping@large"] = (True, _phenotype_large, W)
+    c["samp.stochastic_universal_sampling@large"] = (True, _sus_large, W)
+    c["samp.tiled_choice@large"] = (True, _tiled_large, W)
+    c["samp.axis_shuffle@large"] = (True, _axis_shuffle_large, W)
+    c["cfg.SubsetSelectionConfiguration@large"] = (True, _cfg_large("SubsetSelectionConfiguration", lambda n: numpy.arange(n)), W)
+    c["cfg.IntegerSelectionConfiguration@large"] = (True, _cfg_large("IntegerSelectionConfiguration", lambda n: numpy.arange(n) % 3), W)
+    c["cfg.RealSelectionConfiguration@large"] = (True, _cfg_large("RealSelectionConfiguration", lambda n: (numpy.arange(n) % 5 + 1) / 8.0), W)
+    c["cfg.BinarySelectionConfiguration@large"] = (True, _cfg_large("BinarySelectionConfiguration", lambda n: numpy.arange(n) % 2), W)
+    c["cfg.SubsetMateSelectionConfiguration@large"] = (True, _cfg_large("SubsetMateSelectionConfiguration", lambda n: numpy.arange(0, n, 3), mate=True), W)
+    for mod, cls, kind, nobj in GA_CLASSES:
+        c["opt." + cls + "@large"] = (True, _opt_large(mod, cls, kind, nobj), W)
+    c["opt.SteepestDescentSubsetHillClimber@large"] = (True, _opt_large("SteepestDescentSubsetHillClimber", "SteepestDescentSubsetHillClimber", "subset1", 1, ga=False), 0.03)
+    c["cmat.apply_jitter@large"] = (False, _jitter_large, W)
+    c["embv.from_gmod@large"] = (False, _embv_large, W)
+    return c
+
+
+def is_large(name):
+    return name.endswith("@large")
+
+
 # name -> (accepts an rng argument, callable(rng, v) -> result, weight in random programs)
 def components():
     c = {}
@@ -476,6 +671,7 @@ def components():
     c["embv.from_gmod"] = (False, _embv, 3)
     c["sel.EBVSubset.select"] = (True, _select("EBVSubset"), 1)
     c["sel.RandomSubset.select"] = (True, _select("RandomSubset"), 0.5)
+    c.update(large_components())
     return c
 
 
@@ -531,6 +727,22 @@ def attribute_leak(name, v, gen_spec_or_state):
 
 
 def measure_component(name, tr):
+    """small rows are measured at v=0; `@large` rows at both sizes (v=0: 12 000, v=1: 70 000), merged"""
+    if not is_large(name):
+        return measure_component_at(name, tr, 0)
+    if "HillClimber" in name:          # one size only, two calls (O(n) objective evaluations per sweep)
+        return measure_component_at(name, tr, 0, light=True)
+    a = measure_component_at(name, tr, 0)
+    b = measure_component_at(name, tr, 1, light=True)
+    for mode in ("glob", "expl"):
+        for k in a[mode]:
+            a[mode][k] = a[mode][k] or b[mode][k]
+    a["osSites"] = sorted(set(a["osSites"]) | set(b["osSites"]))
+    a["leakSites"] = sorted(set(a["leakSites"]) | set(b["leakSites"]))
+    return a
+
+
+def measure_component_at(name, tr, v0, light=False):
     import pybrops.core.random.prng as prng
     accepts, fn, _w = comps()[name]
     row = {"name": name, "accepts": accepts}
@@ -539,7 +751,7 @@ def measure_component(name, tr):
         prng.seed(777)
         p0, n0 = py_state(), np_state()
         tr.begin()
-        out = _call(name, None)
+        out = _call(name, None, v0)
         os_s, npfn_s = tr.end()
         return out, {"own": False, "py": py_state() != p0, "np": np_state() != n0, "os": bool(os_s)}, os_s
 
@@ -562,14 +774,14 @@ def measure_component(name, tr):
     # (iii) perturbation: a different python stream must not change the result unless `py` is read;
     # identical streams must give identical results unless an unseeded source is read.
     # (meaningless for a component already seen to use OS entropy: its results differ anyway)
-    if not g1["os"]:
+    if not g1["os"] and not light:
         prng.seed(777)
         if not g1["py"]:
             random.seed(424242)
-        out2 = _call(name, None)
+        out2 = _call(name, None, v0)
         if out2 != out1:
             prng.seed(777)
-            out3 = _call(name, None)
+            out3 = _call(name, None, v0)
             if out3 != out1:
                 os1 = ["os:unattributed-nondeterminism:" + name]
                 g1["os"] = True
@@ -584,20 +796,20 @@ def measure_component(name, tr):
             own = make_gen(["pcg", 4242])
             p0, n0, o0 = py_state(), np_state(), gen_state(own)
             tr.begin()
-            out = _call(name, own)
+            out = _call(name, own, v0)
             os_s, npfn_s = tr.end()
             return out, {"own": gen_state(own) != o0, "py": py_state() != p0, "np": np_state() != n0,
                          "os": bool(os_s)}, os_s
 
         e_out1, e1, eos1 = explmode(777)
-        e_out2, e2, eos2 = explmode(31337)      # other global streams, same own generator
+        e_out2, e2, eos2 = (e_out1, e1, eos1) if light else explmode(31337)   # other global streams, same own generator
         os_all |= set(eos1) | set(eos2)
         if e_out2 != e_out1 and not (e1["py"] or e1["np"] or e1["os"]):
             # result depends on a global stream that was read without being advanced
             e1["np"] = True
         row["expl"] = e1
         if e1["py"] or e1["np"] or e1["os"]:
-            leak = attribute_leak(name, 0, ["pcg", 4242]) or ["unattributed:" + name]
+            leak = attribute_leak(name, v0, ["pcg", 4242]) or ["unattributed:" + name]
     else:
         row["expl"] = dict(g1)
     row["osSites"] = sorted(os_all)
@@ -605,22 +817,22 @@ def measure_component(name, tr):
     return row
 
 
-def measure_spawn():
+def measure_spawn(n=2, name="prng.spawn"):
     import pybrops.core.random.prng as prng
     with TR as tr:
         prng.seed(777)
         p0, n0 = py_state(), np_state()
         tr.begin()
-        gens = prng.spawn(2)
+        gens = prng.spawn(n)
         os_s, _ = tr.end()
         a = [gen_state(g) for g in gens]
         g = {"own": False, "py": py_state() != p0, "np": np_state() != n0, "os": bool(os_s)}
         prng.seed(777)
-        b = [gen_state(x) for x in prng.spawn(2)]
+        b = [gen_state(x) for x in prng.spawn(n)]
         if a != b and not os_s:
             os_s = ["os:unattributed-nondeterminism:prng.spawn"]
             g["os"] = True
-    return {"name": "prng.spawn", "accepts": False, "glob": g, "expl": dict(g), "osSites": sorted(os_s), "leakSites": []}
+    return {"name": name, "accepts": False, "glob": g, "expl": dict(g), "osSites": sorted(os_s), "leakSites": []}
 
 
 def warm_up():
@@ -629,9 +841,12 @@ def warm_up():
     fixtures()
     st_py, st_np = random.getstate(), numpy.random.get_state()
     for name, (accepts, fn, _w) in comps().items():
+        if is_large(name):
+            continue
         fn(None, 0)
         if accepts:
             fn(make_gen(["rs", 1]), 1)
+    prepare_large()
     random.setstate(st_py)
     numpy.random.set_state(st_np)
 
@@ -644,7 +859,7 @@ def measure_table():
     if not _WARM:
         warm_up()
         _WARM = True
-    rows = [measure_spawn()]
+    rows = [measure_spawn(), measure_spawn(300, "prng.spawn@large")]
     with TR as tr:
         for name in comps():
             rows.append(measure_component(name, tr))
@@ -807,7 +1022,6 @@ class C08(Prop):
                    "a program names caller generators by construction seed and spawned generators by index since the last seed()"]
 
     def __init__(self):
-        self._mutant = False
         self._table = None
         self._measure_s = None
 
@@ -867,12 +1081,14 @@ class C08(Prop):
         for i, n in enumerate(names):
             out.append({"kind": "repro", "pre_a": pre_a, "pre_b": pre_b, "ext": [],
                         "prog": [{"seed": 12345}, {"c": n, "rng": "glob", "v": 0}, {"c": n, "rng": "glob", "v": 1}]})
+        out.append({"kind": "repro", "pre_a": pre_a, "pre_b": [["spawn", 2]], "ext": [],
+                    "prog": [{"seed": 4}, {"spawn": 300}, {"c": "samp.tiled_choice", "rng": ["spawned", 299], "v": 0}]})
         # every component that has an rng parameter once with a caller generator and no seeding
         for i, n in enumerate(names):
             if comps()[n][0]:
+                prog = [{"c": n, "rng": ["ext", 0], "v": 0}, {"c": n, "rng": ["ext", 0], "v": 1}]
                 out.append({"kind": "isolated", "pre_a": [["seed", 5], ["np", 2]], "pre_b": [["seed", 6], ["py", 4]],
-                            "ext": [[["pcg", "mt", "rs"][i % 3], 7 + i]],
-                            "prog": [{"c": n, "rng": ["ext", 0], "v": 0}, {"c": n, "rng": ["ext", 0], "v": 1}]})
+                            "ext": [[["pcg", "mt", "rs"][i % 3], 7 + i]], "prog": prog[1:] if is_large(n) else prog})
         # spawn: streams, splitting, use of spawned streams, mid-program re-seed
         out.append({"kind": "repro", "pre_a": [], "pre_b": [["py", 7], ["spawn", 3]], "ext": [],
                     "prog": [{"seed": 0}, {"spawn": 0}, {"spawn": 3}, {"c": "mate.TwoWayCross", "rng": ["spawned", 2], "v": 0},
@@ -927,7 +1143,7 @@ class C08(Prop):
             elif r < 0.9:
                 ops.append(["spawn", rng.randint(1, 3)])
             else:
-                cheap = [n for n in comps() if not n.startswith("opt.") and not n.startswith("sel.")]
+                cheap = [n for n in comps() if not n.startswith("opt.") and not n.startswith("sel.") and not is_large(n)]
                 ops.append(["call", rng.choice(cheap), rng.randint(0, 2)])
         return ops
 
@@ -1054,12 +1270,6 @@ class C08(Prop):
         # Spec on the implementation's observations (evaluated by the driver)
         fails = self._spec_failures(case, obs, answers)
         spec = not fails
-        if self._mutant and fails:
-            # self-test: only failures that are NOT known findings count as a kill
-            sig = self.signature(case, obs, {"fails": fails})
-            if findings.match(findings.load("C08"), sig) is not None:
-                spec = True
-                corr = True if not notes else corr
         starts_differ = obs["A"]["start"]["py"] != obs["B"]["start"]["py"] and obs["A"]["start"]["np"] != obs["B"]["start"]["np"]
         ncalls = sum(1 for op in case["prog"] if "c" in op or "spawn" in op)
         nontriv = starts_differ and ncalls >= (2 if case["kind"] == "repro" else 1)
@@ -1159,12 +1369,10 @@ class C08(Prop):
         def patch(obj, name, new):
             old = getattr(obj, name)
             setattr(obj, name, new)
-            prop._mutant = True
             try:
                 yield
             finally:
                 setattr(obj, name, old)
-                prop._mutant = False
 
         import random as py_random
 
@@ -1219,6 +1427,27 @@ class C08(Prop):
                 out[i, :] = g.choice(self._setspace, problem.n_var, replace=self._replace)
             return out
 
+        def sampling_default_rng_large(self, problem, n_samples, **kw):   # size-gated: only set spaces > 10 000
+            if len(self._setspace) <= 10000:
+                return orig_sampling_do(self, problem, n_samples, **kw)
+            return sampling_default_rng(self, problem, n_samples, **kw)
+
+        def meiosis_fresh_generator_large(geno, sel, xoprob, rng):        # size-gated: only > 4096 gametes
+            if len(sel) > 4096:
+                rng = numpy.random.default_rng()
+            return orig_meiosis(geno, sel, xoprob, rng)
+
+        def tiled_default_rng_large(a, size=None, replace=True, p=None, rng=None):   # size-gated: > 2**16 draws
+            if numpy.prod(size) > 65536:
+                rng = numpy.random.default_rng()
+            return orig_tiled(a, size, replace, p, rng)
+
+        def spawn_from_os_large(n=None, BitGenerator=numpy.random.PCG64, sbits=64):    # size-gated: > 64 streams
+            if n is not None and n > 64:
+                return spawn_from_os(n, BitGenerator, sbits)
+            return orig_spawn(n, BitGenerator, sbits)
+
+        orig_spawn = prng.spawn
         orig_min = hc.SteepestDescentSubsetHillClimber.minimize
 
         def hillclimber_global(self, prob, miscout=None, **kw):  # D12 matcher must stay narrow
@@ -1239,6 +1468,10 @@ class C08(Prop):
             ("sus_ignores_rng", lambda: patch(sampling, "stochastic_universal_sampling", sus_ignores_rng)),
             ("tiled_choice_clock_seeded", lambda: patch(ssc, "tiled_choice", tiled_time_seeded)),
             ("pymoo_sampling_default_rng", lambda: patch(addon.SubsetRandomSampling, "_do", sampling_default_rng)),
+            ("pymoo_sampling_default_rng_above_10000", lambda: patch(addon.SubsetRandomSampling, "_do", sampling_default_rng_large)),
+            ("meiosis_fresh_generator_above_4096_gametes", lambda: patch(mutil, "mat_meiosis", meiosis_fresh_generator_large)),
+            ("tiled_choice_default_rng_above_65536_draws", lambda: patch(sampling, "tiled_choice", tiled_default_rng_large)),
+            ("spawn_from_os_above_64_streams", lambda: patch(prng, "spawn", spawn_from_os_large)),
             ("hillclimber_uses_global_in_select", lambda: patch(hc.SteepestDescentSubsetHillClimber, "minimize", hillclimber_global)),
         ]
 
